@@ -12,7 +12,15 @@ WALL_BUDGET = {"quick": 1200, "thorough": 9000}
 OPS = ["create_b", "write_a", "delete_a", "rename_a_b", "mkdir_d", "move_a_d", "rendir_d_e", "create_d_a", "create_a"]
 MANGLE_ANY = ["dup-all", "dup-first", "dup-last", "single-batches", "walk-after", "walk-before", "idless-copy", "vanished-exists", "vanished-trashed",
               "stale-exists", "replay-old"]
-MANGLE_IDSTABLE = ["reverse", "rotate", "delay-first", "delay-all-one-round", "drop-paths"]
+MANGLE_IDSTABLE = ["reverse", "rotate", "delay-first", "delay-all-one-round", "drop-paths", "delay-first-long"]
+# fixed stories: (operations, "Q" = the engine runs until quiet) - a name is used again after its first use was fully synchronised
+STORIES = {
+    "folder-removed-synced-recreated-with-child": ["rmdir_d", "Q", "mkdir_d", "create_d_a"],
+    "file-deleted-synced-recreated": ["delete_a", "Q", "create_a", "write_a"],
+    "file-renamed-synced-name-reused": ["rename_a_b", "Q", "create_a"],
+    "file-edited-synced-deleted": ["write_a", "Q", "delete_a"],
+    "folder-renamed-synced-old-name-reused-with-child": ["rendir_d_e", "Q", "mkdir_d", "create_d_a"],
+}
 
 
 class Mangler:
@@ -22,6 +30,7 @@ class Mangler:
         self.lab, self.side, self.kind = lab, side, kind
         self.enabled = False
         self.held = []
+        self.countdown = 0
         self.seen = []
         self.out = []
         p = lab.p[side]
@@ -45,6 +54,20 @@ class Mangler:
 
         def transform(batch):
             k = self.kind
+            if k == "delay-first-long":
+                # the first event of a batch is held back for many calls (long enough for the engine to give up on what depends on it)
+                out = []
+                if self.held:
+                    self.countdown -= 1
+                    if self.countdown <= 0:
+                        out, self.held = self.held, []
+                if batch:
+                    if not self.held and not out:
+                        self.held = [batch[0]]
+                        self.countdown = 16
+                        batch = batch[1:]
+                    out = out + batch
+                return out
             if k in ("delay-first", "delay-all-one-round"):
                 out = self.held
                 self.held = []
@@ -114,6 +137,7 @@ def run_once(params, script, mangle):
         m = Mangler(lab, mangle[0], mangle[1])
         m.enabled = True
     descs = []
+    qtrees = []
     n0 = len(lab.calls)
     for item in script:
         if item[0] == "op":
@@ -124,6 +148,13 @@ def run_once(params, script, mangle):
                 pass
         elif item[0] == "walk":
             lab.cs.walk(side=item[1])
+        elif item[0] == "drain":
+            for i in range(60):
+                for o in (0, 1, 2):
+                    lab.step(o)
+                if not lab.busy() and not (m and m.pending()):
+                    break
+            qtrees.append((lab.tree(0), lab.tree(1)))
     quiet = None
     for i in range(60):
         if mangle and mangle[1] in ("walk-after",) and i == 1:
@@ -133,7 +164,7 @@ def run_once(params, script, mangle):
         if not lab.busy() and not (m and m.pending()):
             quiet = i + 1
             break
-    out = {"quiet": quiet, "trees": (lab.tree(0), lab.tree(1)) if quiet else None, "calls": lab.calls[n0:], "descs": descs}
+    out = {"quiet": quiet, "trees": (lab.tree(0), lab.tree(1)) if quiet else None, "calls": lab.calls[n0:], "descs": descs, "qtrees": qtrees}
     lab.stop_engine()
     return out
 
@@ -144,7 +175,16 @@ def _factory(params, env=None):
         script = []
         hist = []
         first = params.get("first")
-        for k in range(params["nops"]):
+        story = STORIES[params["story"]] if params.get("story") else None
+        if story:
+            k = 0
+            for it in story:
+                if it == "Q":
+                    script.append(("drain",))
+                else:
+                    script.append(("op", params["side"], it, k))
+                    k += 1
+        for k in range(0 if story else params["nops"]):
             side, op = first if (k == 0 and first) else (e.choose("side", 2), OPS[e.choose("op", len(OPS))])
             script.append(("op", side, op, k))
             for j in range(params["slots"]):
@@ -175,6 +215,9 @@ def _factory(params, env=None):
             return {"ok": False, "info": info, "sigdata": dict(sd, symptom=sym)}
         if man is None or man["quiet"] is None:
             return fail("engine not quiet with mangled event delivery although the unmangled run is", "no-quiescence")
+        for qi, (a_, b_) in enumerate(zip(man["qtrees"], ref["qtrees"])):
+            if a_ != b_:
+                return fail("trees at an intermediate quiet point differ from prompt in-order delivery", "trees-differ", local=show(a_[0]), remote=show(a_[1]), at_quiet_point=qi)
         if man["descs"] != ref["descs"]:
             from symx.core import Inconclusive
             raise Inconclusive("user operations had different outcomes in the two runs: %r vs %r" % (man["descs"], ref["descs"]))
@@ -223,6 +266,9 @@ def jobs(tier):
             for op in OPS:
                 out.append({"harness": "mangle", "params": {"flavour": f, "base": 2, "nops": 1 if q else 2, "slots": 1, "first": [side, op]},
                             "label": "%s/%d-ops/first=%d:%s" % (f, 1 if q else 2, side, op)})
+        for name in STORIES:
+            for side in (0, 1):
+                out.append({"harness": "mangle", "params": {"flavour": f, "base": 2, "story": name, "side": side}, "label": "%s/story=%s/side%d" % (f, name, side)})
         if q:
             for op in ("write_a", "rename_a_b", "delete_a"):
                 out.append({"harness": "mangle", "params": {"flavour": f, "base": 2, "nops": 2, "slots": 1, "first": [0, op]}, "label": "%s/2-ops/first=0:%s" % (f, op)})
@@ -237,9 +283,9 @@ def meta(tier):
                        "whole batch delayed to the next call, all path fields dropped. Oracles: same quiet-state trees as the unmangled run, no delete the unmangled run did not issue, no "
                        "additional spurious transfer (create/upload of content the target already held at that path). Histories whose unmangled run is not quiet or not convergent are skipped "
                        "(C01's subject).",
-        "bounds": {"operations": OPS, "history": "1 operation + three 2-operation families, 1 slot (thorough: 2 operations)", "manglings": MANGLE_ANY + MANGLE_IDSTABLE, "flavours": "oid, path (thorough + mixed, filtered)"},
+        "bounds": {"operations": OPS, "history": "1 operation + three 2-operation families, 1 slot (thorough: 2 operations); stories that use a name again after its first use was fully synchronised: %s" % STORIES, "manglings": MANGLE_ANY + MANGLE_IDSTABLE, "flavours": "oid, path (thorough + mixed, filtered)"},
         "symbolic": ["operations", "schedule slots", "mangling kind", "mangled side"],
-        "outside": ["combinations of several manglings in one run", "arbitrary permutations of long batches", "delays longer than one call"],
+        "outside": ["combinations of several manglings in one run", "arbitrary permutations of long batches", "delays other than one call or sixteen calls"],
         "stubs": ["engine lab determinisation", "mangling wrapper around provider.events()"],
         "assumptions": ["user operations are re-issued verbatim in both runs (checked: differing outcomes make the path inconclusive)"],
     }
